@@ -745,7 +745,9 @@ func judgeReplay(o *Obligation, out string, expect []string) (string, string) {
 		if !canonMatch(want, g) {
 			return "not-reproduced", fmt.Sprintf("real %s=%s differs from the model's %s", name, g, want)
 		}
-		matched++
+		if strings.ContainsAny(want, "0123456789") || want == "nil" || want == "true" || want == "false" {
+			matched++ // an informative agreement (a bare "non-nil" or "?" says nothing)
+		}
 	}
 	if matched == 0 {
 		return "not-reproduced", "no comparable outputs"
